@@ -174,7 +174,7 @@ let run_gen ~(xmode : bool) (path : string) =
   (* coverage (extended matrix): every msgServer method of the liquidation / auction / esm / rewards / collector /
      tokenmint modules (computed from the regenerated registry) was sent, succeeded WITH an effect for the named
      owner, and was attempted by another position owner and by a stranger *)
-  if xmode && Sys.getenv_opt "VERIF_CASE" = None && not !focused then begin
+  if xmode && Sys.getenv_opt "VERIF_CASE" = None && !cases > 100 && not !focused then begin
     if !notes > 0 then
       mismatch ~case:"-" ~step:0 ~field:"fixture" ~model:"extended-fixture-complete" ~impl:(Printf.sprintf "%d-notes-in-trace" !notes);
     L.iter (fun hn ->
